@@ -36,6 +36,24 @@ fn main() {
 			}
 		}
 		Some("dump-constants") => streams::dump_constants(),
+		Some("schema-case") => {
+			// one `schema` case line per line of stdin: `<ok|err|any> <JSON text of a schema document>`
+			// (hand-written documents for the corpus and for replaying findings)
+			let stdin = std::io::stdin();
+			for line in stdin.lock().lines() {
+				let line = line.unwrap();
+				let Some((expect, text)) = line.split_once(' ') else { continue };
+				let mut w = proto::W::default();
+				w.t("schema").t(expect).xs(text);
+				let mut jw = proto::W::default();
+				if streams::schema::json_tokens(&mut jw, text) {
+					w.t(&jw.s).t("-");
+					println!("{}", w.s);
+				} else {
+					eprintln!("not JSON: {text}");
+				}
+			}
+		}
 		Some("gen-derive") => {
 			let seed: u64 = args.get(2).expect(usage).parse().expect("seed");
 			let n: usize = args.get(3).expect(usage).parse().expect("n");
